@@ -13,6 +13,14 @@ CLAIMED = {
          "Theorems in coq/Props/C09.v: the token list partitions the input (source order, no overlap, gaps are white space, idx/end/line/col reproduce the lexeme), longest registered symbolic operator, whole-word keywords and true/false, '.'/'?' never split, literal forms are single tokens, failure only where no rule matches; rule order and pattern texts pinned to the source by a regenerated table lemma. Tied to the code by all strings up to length 4 (quick) / 5 (thorough) over four mixed alphabets and operator sets plus random fragment strings, every token field compared.",
          "Trusted: Coq kernel, extraction, driver, harness; Go's regexp engine is replaced by hand-written matchers for the ten fixed patterns (tied by the exhaustive sweep and the pinned pattern texts); unicode letter/space tables are generated from the Go toolchain in use.",
          "DESIGN.md §5 C09"),
+ "C08": ("Coq proof over a transcription of parser/{parser,factory,grammar}.go + differential correspondence on token sequences and source strings",
+         "Theorems in coq/Props/C08.v about the Pratt parser model (for any operator table): see the file; the model is tied to the code by comparing whole trees with every recorded position on exhaustive token sequences and generated source strings; the property's own predicates (well-formedness of the accepted tree for the table, yields, non-associativity, exact spans, redundant parentheses) are evaluated on the implementation.",
+         "Trusted: Coq kernel, extraction, driver, harness; binding powers are float32 in the code and exact eighths in the model (generated tables stay below 2^20 where both agree).",
+         "DESIGN.md §5 C08"),
+ "C10": ("Coq proof over a transcription of trans/desugar.go + differential correspondence on parsed trees + paired evaluation",
+         "Theorems in coq/Props/C10.v: core forms only after desugaring; the exact call each sugar form becomes (receiver first, source order, debug column kept); commutation with position erasure; idempotence on trees without a member callee and its refutation in general (known finding). Tied to the code by comparing Desugar's output on generated parsed trees node by node; the harness also checks non-mutation of the input and evaluates sugared/explicit pairs through Eval.",
+         "Trusted: Coq kernel, extraction, driver, harness. 'The original tree is left untouched' is vacuous in a pure model: checked on the implementation only (supporting evidence).",
+         "DESIGN.md §5 C10"),
 }
 NOT_YET = "machinery for this property is not built yet (work in progress in this repository; see DESIGN.md §5)"
 
